@@ -214,7 +214,7 @@ def check_block(t, b, sp, labels, where, acc, after_edit=None):
 def _shard(shard):
     t, origin = shard
     acc = core.Acc()
-    for k in range(4):
+    for k in range(5 if getattr(_shard, "tier", "quick") == "thorough" else 4):
         for labels in itertools.product(LABELS, repeat=k):
             acc.n["states"] += 1
             acc.n["evaluations"] += 1
@@ -242,6 +242,7 @@ def _shard(shard):
 
 
 def run(tier):
+    _shard.tier = tier
     return core.pmap(__name__, "_shard", [(t, o) for t in TYPES for o in ("built", "decoded")])
 
 
